@@ -430,6 +430,45 @@ theorem C04_pages_scan_error (v W : Nat) (p : RowsPage) (rest : List RowsPage) (
     (step1_error v true r msg e hw hlen hb hu) 1, pdrain_error]
   simp
 
+open Paged in
+/-- ALL PAGES OF A QUERY THROUGH THE SCANNER (`sc := iter.Scanner(); for sc.Next() { sc.Scan(dests...) }`): as
+    C04_pages_scan, for pages that also have the same NUMBER of columns `C` (iterScanner keeps the cell buffer it
+    made from the first page): every row of every page is delivered with exactly its cells, each page typed by its
+    own metadata; then Next() returns false on the last page's iterator, without error, every answer consumed. -/
+theorem C04_pages_scanner (v W C : Nat) (p : RowsPage) (rest : List RowsPage)
+    (hp : PageOkS v W C p) (hall : ∀ x ∈ rest, PageOkS v W C x) (hch : chained p rest)
+    (hlast : (lastPage p rest).m.paging = none) :
+    ∃ s1 : PScanner,
+      pdrainS v (List.replicate W true) (rowCount (p :: rest) + 1) (rest.map (fun x => encodeFrame v x.r)) (pageQ p).scanner
+        = some ((p :: rest).flatMap pageCalls, s1, []) ∧
+      s1.q = atEnd (pageQ (lastPage p rest)) ∧ s1.q.err = none := by
+  obtain ⟨s1, hq, _, h⟩ := pagesS_drain v W C rest p hp hall hch 0 [] (pageQ p).scanner rfl
+    (by have := congrArg List.length (colsMatch_view p.m.cols); simp [QIter.scanner, pageQ, qOf, iterOf, viewMeta] at this ⊢; rw [this, hp.2])
+  refine ⟨s1, ?_, hq, by rw [hq]; rfl⟩
+  simp only [List.append_nil] at h
+  rw [h, pdrainS_last v _ s1 (by rw [hq]; rfl) (by rw [hq]; simp [atEnd]) (by rw [hq]; simp [atEnd, pageQ, qOf, hlast]) [] 0]
+  simp
+
+open Paged in
+/-- the same when the fetch after the last page is answered with an ERROR (not UNPREPARED): every row of every page,
+    then Next() false and Err() = exactly that error -/
+theorem C04_pages_scanner_error (v W C : Nat) (p : RowsPage) (rest : List RowsPage) (r : LResp) (msg : FrameRead.Bytes) (e : ErrBody)
+    (hp : PageOkS v W C p) (hall : ∀ x ∈ rest, PageOkS v W C x) (hch : chained p rest)
+    (hlast : (lastPage p rest).m.paging.isSome = true)
+    (hw : wf v r = true) (hlen : (encodeBody v r).length ≤ Compress.maxFrameSize)
+    (hb : r.body = .error msg e) (hu : ∀ id, e ≠ .unprepared id) :
+    ∃ s1 : PScanner,
+      pdrainS v (List.replicate W true) (rowCount (p :: rest) + 2)
+          (rest.map (fun x => encodeFrame v x.r) ++ [encodeFrame v r]) (pageQ p).scanner
+        = some ((p :: rest).flatMap pageCalls, s1, []) ∧
+      s1.q = qErr r msg e := by
+  obtain ⟨s1, hq, _, h⟩ := pagesS_drain v W C rest p hp hall hch 1 [encodeFrame v r] (pageQ p).scanner rfl
+    (by have := congrArg List.length (colsMatch_view p.m.cols); simp [QIter.scanner, pageQ, qOf, iterOf, viewMeta] at this ⊢; rw [this, hp.2])
+  refine ⟨{ s1 with q := qErr r msg e }, ?_, rfl⟩
+  rw [h, pdrainS_switch v _ s1 (by rw [hq]; rfl) (by rw [hq]; simp [atEnd]) (by rw [hq]; simpa [atEnd, pageQ, qOf] using hlast) _ [] _
+    (step1_error v true r msg e hw hlen hb hu) 1, pdrainS_error v _ _ r msg e rfl]
+  simp
+
 /-! ## 5. the witnesses of the repaired findings (conformance, kernel-checked; each is also a replay
        input), the remaining open finding KF-C04-3, regressions about the OLD definitions -/
 
@@ -832,7 +871,7 @@ example : wfRows (colTypes (Cols.global b!"ks" b!"t" [(b!"c0", .native 3), (b!"c
       = [Marshal.GoTy.str false, .ptr (.int .int false)].length ∧
     [Marshal.GoTy.str false, .ptr (.int .int false)].all statelessTy = true := by decide
 
-/-! ### KF-C04-8 (OPEN, proposed): Query.MapScanCAS panics where MapScan fails -/
+/-! ### KF-C04-8 (REPAIRED: props/C04.fix-KF-C04-8.diff): Query.MapScanCAS no longer panics where MapScan fails -/
 
 /-- a lightweight-transaction result: `[applied]` boolean and `c` of the custom type `x.Y`, one row (true, 00) -/
 def cexCasResp : LResp :=
@@ -844,38 +883,56 @@ def cexCasQ : Paged.QIter :=
   qOf cexCasResp { paging := none, cols := .global b!"ks" b!"t" [(b!"[applied]", .native 4), (b!"c", .custom b!"x.Y")] }
     [[.bytes [1], .bytes [0]]]
 
-/-- FULL PROPERTY (does not hold): for every well-formed result MapScanCAS returns `applied` and the other columns,
-    or an error. Counterexample: the response is well-formed, it IS what executeQuery hands to MapScanCAS
-    (C04_query_view), ScanCAS reports applied = true and the cell of `c` — and MapScanCAS panics (`none`). -/
-theorem C04_cex_mapscancas_panics :
+/-- the former witness of KF-C04-8: the response is well-formed, it is what executeQuery hands to MapScanCAS, ScanCAS
+    reports applied = true and the cell of `c` — and MapScanCAS now RETURNS (false, an error) instead of panicking -/
+theorem C04_fixed_mapscancas_error :
     wf 4 cexCasResp = true ∧
     Paged.execute 4 true [encodeFrame 4 cexCasResp] = some (cexCasQ, []) ∧
     (Paged.scanCAS cexCasQ 1).map (fun x => (x.1, x.2.1.map (fun c => (c.dest, c.data)))) = some (true, [(0, some [0])]) ∧
-    (Paged.mapScanCAS cexCasQ).isNone = true := by
+    (Paged.mapScanCAS cexCasQ).map (fun x => (x.1, x.2.1)) = some (false, []) := by
   refine ⟨by decide, ?_, by decide, by decide⟩
   exact (C04_query_view 4 cexCasResp [] (by decide) (by decide)).1 _ _ rfl
 
 open Paged in
-/-- what is true of MapScanCAS: on a result with rows it panics EXACTLY when Iter.MapScan does not return true or
-    stores nothing under `[applied]`; otherwise it returns what MapScan stored: `applied` from the cell of
-    `[applied]`, the other columns, and iter.Close()'s error -/
-theorem C04_mapscancas_panics_exactly (q : QIter) (hf : q.it.failed = false) (hn : (q.it.numRows == 0) = false) :
-    (mapScanCAS q = none ↔
-      (∀ it' m, mapScan q.it = .row it' m → m.lookup b!"[applied]" = none)) := by
+/-- FULL PROPERTY (holds since the repair): Query.MapScanCAS panics ONLY where Iter.MapScan itself panics — for EVERY
+    iterator; in every other case it returns `applied`, the columns and an error value -/
+theorem C04_mapscancas_no_panic (q : QIter) (h : mapScan q.it ≠ .crash) : (mapScanCAS q).isSome = true := by
   unfold mapScanCAS
-  simp only [hf, hn, Bool.false_eq_true, if_false]
-  cases hm : mapScan q.it with
-  | crash => simp
-  | stop it' => simp
-  | row it' m =>
-    constructor
-    · intro h it'' m' heq
-      cases heq
-      cases hl : List.lookup [0x5B, 0x61, 0x70, 0x70, 0x6C, 0x69, 0x65, 0x64, 0x5D] m with
-      | none => rfl
-      | some v => simp [hl] at h
-    · intro h
-      simp [h it' m rfl]
+  split
+  · rfl
+  · split
+    · rfl
+    · cases hm : mapScan q.it with
+      | crash => exact absurd hm h
+      | stop it' => rfl
+      | row it' m =>
+        simp only
+        split <;> rfl
+
+open Paged in
+/-- … and on the iterator of EVERY well-formed RESULT/Rows page (any column types, with or without a Go type, with or
+    without an `[applied]` column; RowData names distinct) Iter.MapScan does not panic, hence MapScanCAS returns -/
+theorem C04_mapscancas_total (r : LResp) (m : Meta) (rs : List (List Cell))
+    (hcols : ∀ n g, m.cols ≠ .omitted n g) (hwc : wfCols m.cols = true) (hw : wfRows (colTypes m.cols) rs = true)
+    (hd : ∀ names, rowDataSpec m.cols = some names → names.Nodup) :
+    (mapScanCAS (qOf r m rs)).isSome = true := by
+  apply C04_mapscancas_no_panic
+  show mapScan (iterOf (viewMeta m) rs.length (eRows rs)) ≠ .crash
+  cases hs : rowDataSpec m.cols with
+  | none =>
+    obtain ⟨_, h1, h2⟩ := C04_no_go_type_is_error m rs hcols hwc hw hs
+    cases rs with
+    | nil => rw [(h2 rfl).1]; exact fun h => by cases h
+    | cons row more => rw [(h1 (by simp)).1]; exact fun h => by cases h
+  | some names =>
+    cases rs with
+    | nil => simp [mapScan, scan, iterOf, (C04_rowdata_total m.cols hwc).2, viewMeta]
+    | cons row more =>
+      rw [C04_cells_mapscan m row more names hcols hwc hw hs (hd names hs)]
+      exact fun h => by cases h
+
+example : (Paged.mapScanCAS cexCasQ).isSome = true :=
+  C04_mapscancas_total cexCasResp _ _ (by intro n g h; cases h) (by decide) (by decide) (by intro names h; cases h)
 
 /-- the hypotheses of C04_pages_scan / C04_pages_scan_error are satisfiable: a query of two pages, `c blob` with the
     rows (01), (null) and a paging state, then — the column named differently, per-column table spec — (02) -/
@@ -911,5 +968,10 @@ example : Paged.pdrain 4 [true] 4 [encodeFrame 4 exUnavailable] (pageQ exPage1)
 /-- C04_query_view's hypotheses: the same responses as first answers -/
 example : Paged.execute 4 true [encodeFrame 4 exUnavailable] = some (qErr exUnavailable b!"no" (.unavailable 1 2 1), []) :=
   (C04_query_view 4 exUnavailable [] (by decide) (by decide)).2.1 _ _ rfl (by intro id h; cases h)
+
+/-- the Scanner's hypotheses on the same two pages (one column each) -/
+example : ∃ s1 : Paged.PScanner, Paged.pdrainS 4 [true] 4 [encodeFrame 4 exPage2.r] (pageQ exPage1).scanner
+    = some ([exPage1, exPage2].flatMap pageCalls, s1, []) ∧ s1.q = atEnd (pageQ exPage2) ∧ s1.q.err = none :=
+  C04_pages_scanner 4 1 1 exPage1 [exPage2] ⟨exPage1_ok, rfl⟩ (by intro x hx; simp at hx; subst hx; exact ⟨exPage2_ok, rfl⟩) ⟨rfl, trivial⟩ rfl
 
 end C04
